@@ -149,7 +149,9 @@ int _GD_TokToNum(const char *restrict token, int standards, int pedantic,
     errno = 0;
     dr = gd_strtod(token, &endptr);
 
-    if (!errno && (*endptr == '\0' || *endptr == ';'))
+    /* ERANGE: the text is a well-formed number; strtod has returned the
+     * nearest double (an infinity, a subnormal number or zero) */
+    if ((!errno || errno == ERANGE) && (*endptr == '\0' || *endptr == ';'))
       rt = GD_FLOAT64;
   }
 
@@ -182,7 +184,7 @@ int _GD_TokToNum(const char *restrict token, int standards, int pedantic,
       errno = 0;
       di = gd_strtod(token, &endptr);
 
-      if (!errno && *endptr == '\0')
+      if ((!errno || errno == ERANGE) && *endptr == '\0')
         it = (di == 0) ? GD_NULL : GD_FLOAT64;
     }
 
